@@ -450,6 +450,10 @@ class Registry:
         if k == "union":
             return f"(TUnion {coq_list([self.emit_ty(t) for t in d[2]], 'ty')})"
         if k == "name":
+            df = self.env["defs"].get(d[1])
+            if df is not None and df[0] == "alias" and not isinstance(df[1], str):
+                # a TypeAliasType object with a direct value: structural alias (id 1000 + n keeps it apart)
+                return f"(TAlias {coq_nat(1000 + d[1])} {self.emit_ty(df[1])})"
             return f"(TName {coq_nat(d[1])})"
         if k == "ref":
             return f"(TRef {coq_nat(d[1])})"
